@@ -123,4 +123,24 @@ example : argmaxBlock [.fin 1, .fin 3, .fin 3, .fin 2] [true, false, true, true]
 example : argmaxBlock [.fin 1, .fin 3] [false, false] = (0, .ninf) := by decide +kernel
 example : segArgmaxAt [.fin 1, .fin 5, .fin 5, .fin 2] [0, 0, 0, 1] 0 = (2, .fin 5) := by decide +kernel
 
+/-! ## the empty set of axes (finding F9): nothing is reduced -/
+
+/-- with no axis to reduce over, every position is 0 (each element is its own block) -/
+theorem C18_argmax_empty_axes_position (a : Tensor Ext) (mask : Option (Tensor Bool)) (fidx : List Nat) :
+    (argmaxND a [] mask).1.get fidx = 0 := by
+  simp only [argmaxND, List.map_nil, allIdx]
+  simp [argmaxBlock, firstTrue]
+
+/-- and both results have the shape of the array -/
+theorem C18_argmax_empty_axes_shape (a : Tensor Ext) (mask : Option (Tensor Bool)) :
+    (argmaxND a [] mask).1.shape = a.shape ∧ (argmaxND a [] mask).2.shape = a.shape := by
+  have hf : ((List.range a.shape.length).filter fun p => !([] : List Nat).contains p) = List.range a.shape.length := by
+    apply List.filter_eq_self.mpr; intro p _; simp
+  have : ((List.range a.shape.length).filter fun p => !([] : List Nat).contains p).map (fun p => a.shape.getD p 0) = a.shape := by
+    rw [hf]
+    apply List.ext_getElem
+    · simp
+    · intro i h1 h2; simp [h2]
+  exact ⟨this, this⟩
+
 end Lcm
